@@ -193,6 +193,7 @@ def eos_unit(u, res):
     return res
 
 
+@symnp.outside_session
 def replay_eos(name, p, label):
     from phonopy.qha.eos import get_eos
     f = get_eos(name)
@@ -306,7 +307,8 @@ def qha_unit(u, res):
         want = (z3.Real("fit%d_V" % (i + 1)) - z3.Real("fit%d_V" % (i - 1))) / Fraction(float(temps[i + 1] - temps[i - 1])) / z3.Real("fit%d_V" % i)
         v, m = solve(res, "thermal expansion at T[%d] is the central difference" % i, pc + [z3.Real("fit%d_V" % i) > 1, b != want], timeout_ms=30000)
         if v == "sat":
-            res.unconfirmed.append({"key": key0 + ":beta%d" % i, "what": "thermal expansion is not (V[i+1]-V[i-1])/(T[i+1]-T[i-1])/V[i]"})
+            ok2, what = replay_beta()
+            (res.violations if ok2 else res.unconfirmed).append({"key": key0 + ":beta%d" % i, "what": what, "replay": {"unit": [str(x) for x in u]}})
         elif v == "unknown":
             res.notes.append("inconclusive beta %d" % i)
     # C_P (numerical) = -T d^2G/dT^2 by the documented three-point second difference of the fitted Gibbs energies
@@ -344,6 +346,32 @@ def qha_unit(u, res):
     return res
 
 
+@symnp.outside_session
+def replay_beta():
+    """concrete: equilibrium volumes exactly quadratic in T; thermal expansion must be the central difference / V"""
+    import phonopy.qha.core as qc
+    temps = np.array([0.0, 100.0, 200.0, 300.0, 400.0]); vols = np.array([60.0, 62.0, 64.0, 66.0, 68.0])
+    old = qc.fit_to_eos
+    calls = []
+
+    def fake(volumes, fe, eos):
+        k = len(calls); calls.append(k)
+        t = temps[k]
+        return [-1.0, 0.5, 4.0, 64.0 + 0.002 * t + 1e-6 * t * t]
+    qc.fit_to_eos = fake
+    try:
+        q = qc.QHA(vols, np.zeros(5), temps, np.ones((5, 5)), np.ones((5, 5)), np.zeros((5, 5)), eos="vinet")
+        q.run()
+        beta = np.array(q.thermal_expansion)
+    finally:
+        qc.fit_to_eos = old
+    V = 64.0 + 0.002 * temps + 1e-6 * temps ** 2
+    want = np.array([0.0] + [(V[i + 1] - V[i - 1]) / (temps[i + 1] - temps[i - 1]) / V[i] for i in range(1, len(beta))])
+    d = float(np.abs(beta[1:] - want[1:len(beta)]).max())
+    return d > 1e-12, "thermal expansion differs by %.3g /K from (V[i+1]-V[i-1])/(T[i+1]-T[i-1])/V[i] for volumes exactly quadratic in T" % d
+
+
+@symnp.outside_session
 def replay_cp():
     """concrete: Gibbs energies that are exactly quadratic in T give C_P = -T G'' at every interior point"""
     import phonopy.qha.core as qc
@@ -385,6 +413,7 @@ def _rel(res, name, lhs, rhs, pc, key, u):
         res.notes.append("inconclusive " + key)
 
 
+@symnp.outside_session
 def replay_qha(u):
     """numeric run of the real QHA with a recording fitter"""
     import phonopy.qha.core as qc
@@ -414,6 +443,7 @@ def replay_qha(u):
     return worst > 1e-9, "numeric replay deviates by %.3g" % worst
 
 
+@symnp.outside_session
 def replay_alias(el_ndim, with_p):
     import phonopy.qha.core as qc
     rng = np.random.default_rng(1)
